@@ -281,8 +281,6 @@ func runC03(c *Ctx) {
 	_ = fmt.Sprint
 	_ = sort.Strings
 	_ = strings.Join
-	c.checkStaleState("stale-iteration-state", c03Pkgs...)
-	c.L.Floor("stale-iteration-state", 1, "clustal block count plus the scope line")
 	c.checkErrNotDropped("error-not-dropped", c03Pkgs...)
 }
 
